@@ -11,7 +11,7 @@ use serde_json::json;
 use std::collections::BTreeSet;
 use tree_sitter::CaptureQuantifier;
 use tree_sitter_graph::ast;
-use tree_sitter_graph::{Identifier, Location};
+use tree_sitter_graph::Location;
 
 const IDENTS: &[&str] = &[
     "x", "y", "v1", "something", "none_left", "format", "in_x", "letter", "node-id", "iffy", "forever", "scanner", "edge-case", "attribute_x", "globals", "inherit_it", "elif_x", "else-where", "true_x", "null-y", "some_thing", "none-such", "_u", "a-b-c", "printer", "variable", "settings", "Ünï", "名前",
@@ -219,89 +219,218 @@ fn gen_free(t: &mut Tape) -> (GProg, usize, usize) {
 }
 
 // ------------------------------------------------------------------------------------------------
-// expected AST
+// comparison: the written program and the parsed AST are both rendered into the same canonical
+// lines (one per global / shorthand / statement, nested blocks indented, every location spelled
+// out) and compared as text.  The parsed side only READS fields of the library's AST types, so a
+// field added to one of them does not stop the harness from compiling.
 
-struct Conv<'a> {
+fn l(loc: &Location) -> String {
+    format!("@{}:{}", loc.row, loc.column)
+}
+
+struct Written<'a> {
     locs: &'a std::collections::BTreeMap<Id, Loc>,
 }
 
-impl<'a> Conv<'a> {
-    fn loc(&self, id: Id) -> Location {
-        let l = self.locs[&id];
-        Location { row: l.row, column: l.col }
+impl<'a> Written<'a> {
+    fn loc(&self, id: Id) -> String {
+        let x = self.locs[&id];
+        format!("@{}:{}", x.row, x.col)
     }
-    fn unscoped(&self, id: Id, name: &str) -> ast::UnscopedVariable {
-        ast::UnscopedVariable { name: Identifier::from(name), location: self.loc(id) }
-    }
-    fn expr(&self, e: &Expr) -> ast::Expression {
+    fn expr(&self, e: &Expr) -> String {
         match e {
-            Expr::Null => ast::Expression::NullLiteral,
-            Expr::True => ast::Expression::TrueLiteral,
-            Expr::False => ast::Expression::FalseLiteral,
-            Expr::Int(v, _) => ast::IntegerConstant { value: *v }.into(),
-            Expr::Str(s) => ast::StringConstant { value: s.clone() }.into(),
-            Expr::List(xs) => ast::ListLiteral { elements: xs.iter().map(|x| self.expr(x)).collect() }.into(),
-            Expr::Set(xs) => ast::SetLiteral { elements: xs.iter().map(|x| self.expr(x)).collect() }.into(),
-            Expr::ListComp { id, elem, var_id, var, src } => ast::ListComprehension { element: Box::new(self.expr(elem)), variable: self.unscoped(*var_id, var), value: Box::new(self.expr(src)), location: self.loc(*id) }.into(),
-            Expr::SetComp { id, elem, var_id, var, src } => ast::SetComprehension { element: Box::new(self.expr(elem)), variable: self.unscoped(*var_id, var), value: Box::new(self.expr(src)), location: self.loc(*id) }.into(),
-            Expr::Capture { id, name } => ast::Capture { name: Identifier::from(name.as_str()), quantifier: CaptureQuantifier::Zero, file_capture_index: usize::MAX, stanza_capture_index: usize::MAX, location: self.loc(*id) }.into(),
-            Expr::Var { id, name } => self.unscoped(*id, name).into(),
-            Expr::Scoped { id, scope, name } => ast::ScopedVariable { scope: Box::new(self.expr(scope)), name: Identifier::from(name.as_str()), location: self.loc(*id) }.into(),
-            Expr::Call { func, args } => ast::Call { function: Identifier::from(func.as_str()), parameters: args.iter().map(|x| self.expr(x)).collect() }.into(),
-            Expr::RegexCap(n) => ast::RegexCapture { match_index: *n }.into(),
-            Expr::Raw(_) => ast::Expression::NullLiteral,
+            Expr::Null => "#null".into(),
+            Expr::True => "#true".into(),
+            Expr::False => "#false".into(),
+            Expr::Int(v, _) => format!("int({})", v),
+            Expr::Str(s) => format!("str({:?})", s),
+            Expr::List(xs) => format!("list[{}]", xs.iter().map(|x| self.expr(x)).collect::<Vec<_>>().join(", ")),
+            Expr::Set(xs) => format!("set{{{}}}", xs.iter().map(|x| self.expr(x)).collect::<Vec<_>>().join(", ")),
+            Expr::ListComp { id, elem, var_id, var, src } => format!("listcomp{}[{} for {}{} in {}]", self.loc(*id), self.expr(elem), var, self.loc(*var_id), self.expr(src)),
+            Expr::SetComp { id, elem, var_id, var, src } => format!("setcomp{}[{} for {}{} in {}]", self.loc(*id), self.expr(elem), var, self.loc(*var_id), self.expr(src)),
+            Expr::Capture { id, name } => format!("capture(@{}){}", name, self.loc(*id)),
+            Expr::Var { id, name } => format!("var({}){}", name, self.loc(*id)),
+            Expr::Scoped { id, scope, name } => format!("scoped({} . {}){}", self.expr(scope), name, self.loc(*id)),
+            Expr::Call { func, args } => format!("call({}{})", func, args.iter().map(|x| format!(" {}", self.expr(x))).collect::<String>()),
+            Expr::RegexCap(n) => format!("regexcap({})", n),
+            Expr::Raw(_) => "#null".into(),
         }
     }
-    fn var(&self, v: &VarRef) -> ast::Variable {
+    fn var(&self, v: &VarRef) -> String {
         match v {
-            VarRef::Plain { id, name } => self.unscoped(*id, name).into(),
-            VarRef::Scoped { id, scope, name } => ast::ScopedVariable { scope: Box::new(self.expr(scope)), name: Identifier::from(name.as_str()), location: self.loc(*id) }.into(),
+            VarRef::Plain { id, name } => format!("var({}){}", name, self.loc(*id)),
+            VarRef::Scoped { id, scope, name } => format!("scoped({} . {}){}", self.expr(scope), name, self.loc(*id)),
         }
     }
-    fn attrs(&self, a: &[Attr]) -> Vec<ast::Attribute> {
-        a.iter().map(|x| ast::Attribute { name: Identifier::from(x.name.as_str()), value: x.value.as_ref().map(|v| self.expr(v)).unwrap_or(ast::Expression::TrueLiteral) }).collect()
+    fn attrs(&self, a: &[Attr]) -> String {
+        a.iter().map(|x| format!("{} = {}", x.name, x.value.as_ref().map(|v| self.expr(v)).unwrap_or_else(|| "#true".into()))).collect::<Vec<_>>().join(", ")
     }
-    fn stmts(&self, s: &[Stmt]) -> Vec<ast::Statement> {
-        s.iter().map(|x| self.stmt(x)).collect()
-    }
-    fn stmt(&self, s: &Stmt) -> ast::Statement {
-        let location = self.loc(s.id());
-        match s {
-            Stmt::Let { var, value, .. } => ast::DeclareImmutable { variable: self.var(var), value: self.expr(value), location }.into(),
-            Stmt::Var { var, value, .. } => ast::DeclareMutable { variable: self.var(var), value: self.expr(value), location }.into(),
-            Stmt::Set { var, value, .. } => ast::Assign { variable: self.var(var), value: self.expr(value), location }.into(),
-            Stmt::Node { var, .. } => ast::CreateGraphNode { node: self.var(var), location }.into(),
-            Stmt::Edge { src, dst, .. } => ast::CreateEdge { source: self.expr(src), sink: self.expr(dst), location }.into(),
-            Stmt::AttrNode { node, attrs, .. } => ast::AddGraphNodeAttribute { node: self.expr(node), attributes: self.attrs(attrs), location }.into(),
-            Stmt::AttrEdge { src, dst, attrs, .. } => ast::AddEdgeAttribute { source: self.expr(src), sink: self.expr(dst), attributes: self.attrs(attrs), location }.into(),
-            Stmt::Print { values, .. } => ast::Print { values: values.iter().map(|v| self.expr(v)).collect(), location }.into(),
-            Stmt::Scan { value, arms, .. } => ast::Scan {
-                value: self.expr(value),
-                arms: arms.iter().map(|a| ast::ScanArm { regex: regex::Regex::new(&a.regex).unwrap(), statements: self.stmts(&a.body), location }).collect(),
-                location,
-            }
-            .into(),
-            Stmt::If { arms, .. } => ast::If {
-                arms: arms
-                    .iter()
-                    .map(|a| ast::IfArm {
-                        conditions: a
+    fn stmts(&self, s: &[Stmt], depth: usize, out: &mut Vec<String>) {
+        let pad = "  ".repeat(depth);
+        for x in s {
+            let at = self.loc(x.id());
+            match x {
+                Stmt::Let { var, value, .. } => out.push(format!("{}let{} {} = {}", pad, at, self.var(var), self.expr(value))),
+                Stmt::Var { var, value, .. } => out.push(format!("{}var{} {} = {}", pad, at, self.var(var), self.expr(value))),
+                Stmt::Set { var, value, .. } => out.push(format!("{}set{} {} = {}", pad, at, self.var(var), self.expr(value))),
+                Stmt::Node { var, .. } => out.push(format!("{}node{} {}", pad, at, self.var(var))),
+                Stmt::Edge { src, dst, .. } => out.push(format!("{}edge{} {} -> {}", pad, at, self.expr(src), self.expr(dst))),
+                Stmt::AttrNode { node, attrs, .. } => out.push(format!("{}attr{} ({}) {}", pad, at, self.expr(node), self.attrs(attrs))),
+                Stmt::AttrEdge { src, dst, attrs, .. } => out.push(format!("{}attr{} ({} -> {}) {}", pad, at, self.expr(src), self.expr(dst), self.attrs(attrs))),
+                Stmt::Print { values, .. } => out.push(format!("{}print{} {}", pad, at, values.iter().map(|v| self.expr(v)).collect::<Vec<_>>().join(", "))),
+                Stmt::Scan { value, arms, .. } => {
+                    out.push(format!("{}scan{} {}", pad, at, self.expr(value)));
+                    for a in arms {
+                        // the library records the scan's location for every arm
+                        out.push(format!("{}  arm{} /{}/", pad, at, a.regex));
+                        self.stmts(&a.body, depth + 2, out);
+                    }
+                }
+                Stmt::If { arms, .. } => {
+                    out.push(format!("{}if{}", pad, at));
+                    for a in arms {
+                        let conds: Vec<String> = a
                             .conds
                             .iter()
                             .map(|c| match c {
-                                Cond::Some(id, e) => ast::Condition::Some { value: self.expr(e), location: self.loc(*id) },
-                                Cond::None(id, e) => ast::Condition::None { value: self.expr(e), location: self.loc(*id) },
-                                Cond::Bool(id, e) => ast::Condition::Bool { value: self.expr(e), location: self.loc(*id) },
+                                Cond::Some(id, e) => format!("some{} {}", self.loc(*id), self.expr(e)),
+                                Cond::None(id, e) => format!("none{} {}", self.loc(*id), self.expr(e)),
+                                Cond::Bool(id, e) => format!("bool{} {}", self.loc(*id), self.expr(e)),
                             })
-                            .collect(),
-                        statements: self.stmts(&a.body),
-                        location: self.loc(a.id),
-                    })
-                    .collect(),
-                location,
+                            .collect();
+                        out.push(format!("{}  arm{} [{}]", pad, self.loc(a.id), conds.join(", ")));
+                        self.stmts(&a.body, depth + 2, out);
+                    }
+                }
+                Stmt::For { var_id, var, value, body, .. } => {
+                    out.push(format!("{}for{} {}{} in {}", pad, at, var, self.loc(*var_id), self.expr(value)));
+                    self.stmts(body, depth + 1, out);
+                }
             }
-            .into(),
-            Stmt::For { var_id, var, value, body, .. } => ast::ForIn { variable: self.unscoped(*var_id, var), value: self.expr(value), statements: self.stmts(body), location }.into(),
+        }
+    }
+}
+
+/// The parsed side.  `seen` collects (capture name, resolved quantifier).
+struct Parsed<'s> {
+    seen: &'s mut Vec<(String, CaptureQuantifier)>,
+}
+
+impl<'s> Parsed<'s> {
+    fn unscoped(&self, v: &ast::UnscopedVariable) -> String {
+        format!("var({}){}", v.name, l(&v.location))
+    }
+    fn expr(&mut self, e: &ast::Expression) -> String {
+        match e {
+            ast::Expression::NullLiteral => "#null".into(),
+            ast::Expression::TrueLiteral => "#true".into(),
+            ast::Expression::FalseLiteral => "#false".into(),
+            ast::Expression::IntegerConstant(c) => format!("int({})", c.value),
+            ast::Expression::StringConstant(c) => format!("str({:?})", c.value),
+            ast::Expression::ListLiteral(x) => format!("list[{}]", x.elements.iter().map(|y| self.expr(y)).collect::<Vec<_>>().join(", ")),
+            ast::Expression::SetLiteral(x) => format!("set{{{}}}", x.elements.iter().map(|y| self.expr(y)).collect::<Vec<_>>().join(", ")),
+            ast::Expression::ListComprehension(c) => {
+                let (el, src) = (self.expr(&c.element), self.expr(&c.value));
+                format!("listcomp{}[{} for {}{} in {}]", l(&c.location), el, c.variable.name, l(&c.variable.location), src)
+            }
+            ast::Expression::SetComprehension(c) => {
+                let (el, src) = (self.expr(&c.element), self.expr(&c.value));
+                format!("setcomp{}[{} for {}{} in {}]", l(&c.location), el, c.variable.name, l(&c.variable.location), src)
+            }
+            ast::Expression::Capture(c) => {
+                self.seen.push((c.name.to_string(), c.quantifier));
+                format!("capture(@{}){}", c.name, l(&c.location))
+            }
+            ast::Expression::Variable(v) => self.var(v),
+            ast::Expression::Call(c) => {
+                let args: String = c.parameters.iter().map(|x| format!(" {}", self.expr(x))).collect();
+                format!("call({}{})", c.function, args)
+            }
+            ast::Expression::RegexCapture(r) => format!("regexcap({})", r.match_index),
+            #[allow(unreachable_patterns)]
+            other => format!("unknown-expression({:?})", other),
+        }
+    }
+    fn var(&mut self, v: &ast::Variable) -> String {
+        match v {
+            ast::Variable::Unscoped(u) => self.unscoped(u),
+            ast::Variable::Scoped(sv) => {
+                let scope = self.expr(&sv.scope);
+                format!("scoped({} . {}){}", scope, sv.name, l(&sv.location))
+            }
+        }
+    }
+    fn attrs(&mut self, a: &[ast::Attribute]) -> String {
+        a.iter().map(|x| format!("{} = {}", x.name, self.expr(&x.value))).collect::<Vec<_>>().join(", ")
+    }
+    fn stmts(&mut self, s: &[ast::Statement], depth: usize, out: &mut Vec<String>) {
+        let pad = "  ".repeat(depth);
+        for x in s {
+            match x {
+                ast::Statement::DeclareImmutable(d) => {
+                    let line = format!("{}let{} {} = {}", pad, l(&d.location), self.var(&d.variable), self.expr(&d.value));
+                    out.push(line)
+                }
+                ast::Statement::DeclareMutable(d) => {
+                    let line = format!("{}var{} {} = {}", pad, l(&d.location), self.var(&d.variable), self.expr(&d.value));
+                    out.push(line)
+                }
+                ast::Statement::Assign(d) => {
+                    let line = format!("{}set{} {} = {}", pad, l(&d.location), self.var(&d.variable), self.expr(&d.value));
+                    out.push(line)
+                }
+                ast::Statement::CreateGraphNode(d) => {
+                    let line = format!("{}node{} {}", pad, l(&d.location), self.var(&d.node));
+                    out.push(line)
+                }
+                ast::Statement::CreateEdge(d) => {
+                    let line = format!("{}edge{} {} -> {}", pad, l(&d.location), self.expr(&d.source), self.expr(&d.sink));
+                    out.push(line)
+                }
+                ast::Statement::AddGraphNodeAttribute(d) => {
+                    let line = format!("{}attr{} ({}) {}", pad, l(&d.location), self.expr(&d.node), self.attrs(&d.attributes));
+                    out.push(line)
+                }
+                ast::Statement::AddEdgeAttribute(d) => {
+                    let line = format!("{}attr{} ({} -> {}) {}", pad, l(&d.location), self.expr(&d.source), self.expr(&d.sink), self.attrs(&d.attributes));
+                    out.push(line)
+                }
+                ast::Statement::Print(d) => {
+                    let vals: Vec<String> = d.values.iter().map(|v| self.expr(v)).collect();
+                    out.push(format!("{}print{} {}", pad, l(&d.location), vals.join(", ")))
+                }
+                ast::Statement::Scan(d) => {
+                    let line = format!("{}scan{} {}", pad, l(&d.location), self.expr(&d.value));
+                    out.push(line);
+                    for a in &d.arms {
+                        out.push(format!("{}  arm{} /{}/", pad, l(&a.location), a.regex.as_str()));
+                        self.stmts(&a.statements, depth + 2, out);
+                    }
+                }
+                ast::Statement::If(d) => {
+                    out.push(format!("{}if{}", pad, l(&d.location)));
+                    for a in &d.arms {
+                        let conds: Vec<String> = a
+                            .conditions
+                            .iter()
+                            .map(|c| match c {
+                                ast::Condition::Some { value, location } => format!("some{} {}", l(location), self.expr(value)),
+                                ast::Condition::None { value, location } => format!("none{} {}", l(location), self.expr(value)),
+                                ast::Condition::Bool { value, location } => format!("bool{} {}", l(location), self.expr(value)),
+                            })
+                            .collect();
+                        out.push(format!("{}  arm{} [{}]", pad, l(&a.location), conds.join(", ")));
+                        self.stmts(&a.statements, depth + 2, out);
+                    }
+                }
+                ast::Statement::ForIn(d) => {
+                    let line = format!("{}for{} {}{} in {}", pad, l(&d.location), d.variable.name, l(&d.variable.location), self.expr(&d.value));
+                    out.push(line);
+                    self.stmts(&d.statements, depth + 1, out);
+                }
+                #[allow(unreachable_patterns)]
+                other => out.push(format!("{}unknown-statement({:?})", pad, other)),
+            }
         }
     }
 }
@@ -315,158 +444,58 @@ fn quant(q: Quant) -> CaptureQuantifier {
     }
 }
 
-/// Reset the fields the checker fills in, so that a checked AST can be compared with the parse-only
-/// expectation.  Returns the (name, quantifier) pairs that were set.
-fn reset_captures(stmts: &mut [ast::Statement], seen: &mut Vec<(String, CaptureQuantifier)>) {
-    fn ex(e: &mut ast::Expression, seen: &mut Vec<(String, CaptureQuantifier)>) {
-        match e {
-            ast::Expression::Capture(c) => {
-                seen.push((c.name.to_string(), c.quantifier));
-                c.quantifier = CaptureQuantifier::Zero;
-                c.file_capture_index = usize::MAX;
-                c.stanza_capture_index = usize::MAX;
-            }
-            ast::Expression::ListLiteral(l) => l.elements.iter_mut().for_each(|x| ex(x, seen)),
-            ast::Expression::SetLiteral(l) => l.elements.iter_mut().for_each(|x| ex(x, seen)),
-            ast::Expression::ListComprehension(c) => {
-                ex(&mut c.element, seen);
-                ex(&mut c.value, seen);
-            }
-            ast::Expression::SetComprehension(c) => {
-                ex(&mut c.element, seen);
-                ex(&mut c.value, seen);
-            }
-            ast::Expression::Variable(ast::Variable::Scoped(v)) => ex(&mut v.scope, seen),
-            ast::Expression::Call(c) => c.parameters.iter_mut().for_each(|x| ex(x, seen)),
-            _ => {}
+fn first_line_difference(parsed: &[String], written: &[String]) -> String {
+    for (i, (p, w)) in parsed.iter().zip(written.iter()).enumerate() {
+        if p != w {
+            return format!("line {}:\nparsed   {}\nwritten  {}", i + 1, p, w);
         }
     }
-    fn var(v: &mut ast::Variable, seen: &mut Vec<(String, CaptureQuantifier)>) {
-        if let ast::Variable::Scoped(s) = v {
-            ex(&mut s.scope, seen);
-        }
-    }
-    for s in stmts {
-        match s {
-            ast::Statement::DeclareImmutable(x) => {
-                var(&mut x.variable, seen);
-                ex(&mut x.value, seen);
-            }
-            ast::Statement::DeclareMutable(x) => {
-                var(&mut x.variable, seen);
-                ex(&mut x.value, seen);
-            }
-            ast::Statement::Assign(x) => {
-                var(&mut x.variable, seen);
-                ex(&mut x.value, seen);
-            }
-            ast::Statement::CreateGraphNode(x) => var(&mut x.node, seen),
-            ast::Statement::AddGraphNodeAttribute(x) => {
-                ex(&mut x.node, seen);
-                x.attributes.iter_mut().for_each(|a| ex(&mut a.value, seen));
-            }
-            ast::Statement::CreateEdge(x) => {
-                ex(&mut x.source, seen);
-                ex(&mut x.sink, seen);
-            }
-            ast::Statement::AddEdgeAttribute(x) => {
-                ex(&mut x.source, seen);
-                ex(&mut x.sink, seen);
-                x.attributes.iter_mut().for_each(|a| ex(&mut a.value, seen));
-            }
-            ast::Statement::Scan(x) => {
-                ex(&mut x.value, seen);
-                x.arms.iter_mut().for_each(|a| reset_captures(&mut a.statements, seen));
-            }
-            ast::Statement::Print(x) => x.values.iter_mut().for_each(|v| ex(v, seen)),
-            ast::Statement::If(x) => x.arms.iter_mut().for_each(|a| {
-                a.conditions.iter_mut().for_each(|c| match c {
-                    ast::Condition::Some { value, .. } | ast::Condition::None { value, .. } | ast::Condition::Bool { value, .. } => ex(value, seen),
-                });
-                reset_captures(&mut a.statements, seen);
-            }),
-            ast::Statement::ForIn(x) => {
-                ex(&mut x.value, seen);
-                reset_captures(&mut x.statements, seen);
-            }
-        }
-    }
-}
-
-fn first_difference(a: &[ast::Statement], b: &[ast::Statement]) -> String {
-    if a.len() != b.len() {
-        return format!("{} statements parsed, {} written", a.len(), b.len());
-    }
-    for (x, y) in a.iter().zip(b.iter()) {
-        if x != y {
-            // descend into blocks to find the innermost differing statement
-            match (x, y) {
-                (ast::Statement::If(p), ast::Statement::If(q)) if p.arms.len() == q.arms.len() && p.location == q.location => {
-                    for (pa, qa) in p.arms.iter().zip(q.arms.iter()) {
-                        if pa.conditions != qa.conditions || pa.location != qa.location {
-                            return format!("if arm differs: parsed {:?} at {:?}, written {:?} at {:?}", pa.conditions, pa.location, qa.conditions, qa.location);
-                        }
-                        if pa.statements != qa.statements {
-                            return first_difference(&pa.statements, &qa.statements);
-                        }
-                    }
-                }
-                (ast::Statement::ForIn(p), ast::Statement::ForIn(q)) if p.variable == q.variable && p.value == q.value && p.location == q.location => return first_difference(&p.statements, &q.statements),
-                (ast::Statement::Scan(p), ast::Statement::Scan(q)) if p.value == q.value && p.location == q.location && p.arms.len() == q.arms.len() => {
-                    for (pa, qa) in p.arms.iter().zip(q.arms.iter()) {
-                        if pa.regex.as_str() != qa.regex.as_str() {
-                            return format!("scan arm regex parsed {:?}, written {:?}", pa.regex.as_str(), qa.regex.as_str());
-                        }
-                        if pa.location != qa.location {
-                            return format!("scan arm location parsed {:?}, written {:?}", pa.location, qa.location);
-                        }
-                        if pa.statements != qa.statements {
-                            return first_difference(&pa.statements, &qa.statements);
-                        }
-                    }
-                }
-                _ => {}
-            }
-            return format!("parsed   {:?}\nwritten  {:?}", x, y);
-        }
-    }
-    "no difference found".into()
+    format!("{} lines parsed, {} written; first extra: {:?}", parsed.len(), written.len(), parsed.get(written.len()).or(written.get(parsed.len())))
 }
 
 fn compare(file: &mut ast::File, prog: &GProg, printed: &Printed, checked: bool) -> Result<(), (String, String)> {
-    let conv = Conv { locs: &printed.locs };
+    let w = Written { locs: &printed.locs };
     // globals
-    let want_globals: Vec<ast::Global> = prog
+    let want_globals: Vec<String> = prog
         .items
         .iter()
         .filter_map(|i| match i {
-            Item::Global { id, name, quant: q, default } => Some(ast::Global { name: Identifier::from(name.as_str()), quantifier: quant(*q), default: default.clone(), location: conv.loc(*id) }),
+            Item::Global { id, name, quant: q, default } => Some(format!("global {} {:?} {:?} {}", name, quant(*q), default, w.loc(*id))),
             _ => None,
         })
         .collect();
-    if file.globals != want_globals {
-        return Err(("globals".into(), format!("parsed {:?}\nwritten {:?}", file.globals, want_globals)));
+    let got_globals: Vec<String> = file.globals.iter().map(|g| format!("global {} {:?} {:?} {}", g.name, g.quantifier, g.default, l(&g.location))).collect();
+    if got_globals != want_globals {
+        return Err(("globals".into(), first_line_difference(&got_globals, &want_globals)));
     }
-    let want_inherit: std::collections::HashSet<Identifier> = prog.inherited().iter().map(|n| Identifier::from(*n)).collect();
-    if file.inherited_variables != want_inherit {
-        return Err(("inherit".into(), format!("parsed {:?}\nwritten {:?}", file.inherited_variables, want_inherit)));
+    let want_inherit: BTreeSet<String> = prog.inherited().iter().map(|n| n.to_string()).collect();
+    let got_inherit: BTreeSet<String> = file.inherited_variables.iter().map(|n| n.to_string()).collect();
+    if got_inherit != want_inherit {
+        return Err(("inherit".into(), format!("parsed {:?}\nwritten {:?}", got_inherit, want_inherit)));
     }
-    // shorthands
-    let mut want_sh = ast::AttributeShorthands::new();
+    // shorthands (by name; a later one with the same name replaces the earlier)
+    let mut want_sh: std::collections::BTreeMap<String, String> = Default::default();
     for i in &prog.items {
         if let Item::Shorthand { id, name, var_id, var, attrs } = i {
-            want_sh.add(ast::AttributeShorthand { name: Identifier::from(name.as_str()), variable: conv.unscoped(*var_id, var), attributes: conv.attrs(attrs), location: conv.loc(*id) });
+            want_sh.insert(name.clone(), format!("shorthand {}{} {}{} => {}", name, w.loc(*id), var, w.loc(*var_id), w.attrs(attrs)));
         }
     }
-    if file.shorthands != want_sh {
-        return Err(("shorthands".into(), format!("parsed {:?}\nwritten {:?}", file.shorthands, want_sh)));
+    let mut sink = vec![];
+    let mut got_sh: std::collections::BTreeMap<String, String> = Default::default();
+    for sh in file.shorthands.iter() {
+        let mut p = Parsed { seen: &mut sink };
+        got_sh.insert(sh.name.to_string(), format!("shorthand {}{} {}{} => {}", sh.name, l(&sh.location), sh.variable.name, l(&sh.variable.location), p.attrs(&sh.attributes)));
+    }
+    if got_sh != want_sh {
+        let (g, wv): (Vec<String>, Vec<String>) = (got_sh.values().cloned().collect(), want_sh.values().cloned().collect());
+        return Err(("shorthands".into(), first_line_difference(&g, &wv)));
     }
     // stanzas
     let stanzas: Vec<&Stanza> = prog.stanzas().collect();
     if file.stanzas.len() != stanzas.len() {
         return Err(("stanza-count".into(), format!("{} stanzas parsed, {} written", file.stanzas.len(), stanzas.len())));
     }
-    for (parsed, written) in file.stanzas.iter_mut().zip(stanzas.iter()) {
+    for (parsed, written) in file.stanzas.iter().zip(stanzas.iter()) {
         let start = printed.locs[&written.id];
         let end = printed.stanza_end[&written.id];
         if (parsed.range.start.row, parsed.range.start.column) != (start.row, start.col) {
@@ -475,9 +504,10 @@ fn compare(file: &mut ast::File, prog: &GProg, printed: &Printed, checked: bool)
         if (parsed.range.end.row, parsed.range.end.column) != (end.row, end.col) {
             return Err(("stanza-end".into(), format!("stanza end parsed ({}, {}), written ({}, {})", parsed.range.end.row, parsed.range.end.column, end.row, end.col)));
         }
+        let mut seen = vec![];
+        let mut got = vec![];
+        Parsed { seen: &mut seen }.stmts(&parsed.statements, 0, &mut got);
         if checked {
-            let mut seen = vec![];
-            reset_captures(&mut parsed.statements, &mut seen);
             for (name, q) in seen {
                 if let Some(c) = written.captures.iter().find(|c| c.name == name) {
                     if q != quant(c.quant) {
@@ -486,9 +516,10 @@ fn compare(file: &mut ast::File, prog: &GProg, printed: &Printed, checked: bool)
                 }
             }
         }
-        let want = conv.stmts(&written.body);
-        if parsed.statements != want {
-            return Err(("statements".into(), first_difference(&parsed.statements, &want)));
+        let mut want = vec![];
+        w.stmts(&written.body, 0, &mut want);
+        if got != want {
+            return Err(("statements".into(), first_line_difference(&got, &want)));
         }
     }
     Ok(())
@@ -572,7 +603,7 @@ pub fn case(tape: &[u32]) -> CaseOutcome {
 
 pub fn spec(tier: &str) -> Spec {
     let mut s = Spec::new("C07", tier, 8_000, 150_000, 1800);
-    s.rule = "two thirds free-form programs over every statement and expression form (nesting to depth 5, identifiers that begin with keywords or contain non-ASCII letters, strings with every escape and multi-byte characters, integers up to u32::MAX with leading zeros, regex literals, multi-line queries with comments / braces inside strings) parsed with the parse-only entry (File::new + parse), one third checker-valid generated programs parsed with File::from_str; all printed with a random layout (runs of spaces / tabs / newlines / `;` comments with multi-byte text wherever a separator is allowed, raw or escaped newlines and tabs and unnecessary escapes inside strings, optional trailing commas). Oracle: globals, inherit names, shorthands and every stanza's statement list must equal (ast PartialEq) the AST built from the printer's own record, incl. every Location (stanza start and end, statement keyword, unscoped variable, scoped-variable name token, capture, condition, if/elif/else arm, comprehension bracket); after from_str the resolved capture quantifier must be the query's. Non-trivial: >=3 statement kinds, >=1 comment or multi-line query, and a located construct after a multi-byte character on its line or a keyword-prefixed identifier. Distinct = fingerprint of the text.".into();
+    s.rule = "two thirds free-form programs over every statement and expression form (nesting to depth 5, identifiers that begin with keywords or contain non-ASCII letters, strings with every escape and multi-byte characters, integers up to u32::MAX with leading zeros, regex literals, multi-line queries with comments / braces inside strings) parsed with the parse-only entry (File::new + parse), one third checker-valid generated programs parsed with File::from_str; all printed with a random layout (runs of spaces / tabs / newlines / `;` comments with multi-byte text wherever a separator is allowed, raw or escaped newlines and tabs and unnecessary escapes inside strings, optional trailing commas). Oracle: globals, inherit names, shorthands and every stanza's statement list, rendered into canonical lines by reading the parsed AST's fields, must equal the same rendering of the written program with the printer's own record of locations, incl. every Location (stanza start and end, statement keyword, unscoped variable, scoped-variable name token, capture, condition, if/elif/else arm, comprehension bracket); after from_str the resolved capture quantifier must be the query's. Non-trivial: >=3 statement kinds, >=1 comment or multi-line query, and a located construct after a multi-byte character on its line or a keyword-prefixed identifier. Distinct = fingerprint of the text.".into();
     s.assumptions = vec![
         "a bare `global name` is followed by a plain whitespace character (comments directly after the name are excluded, DESIGN §4)".into(),
         "scoped-variable locations are those of the name token after the dot (pinned by tests/it/parser.rs)".into(),
